@@ -2,9 +2,9 @@
    Statements only; proofs in Proofs/PrinterExpressible.v.  [print_model] is the transcription of
    jsontodsl.go (Model/Printer.v), tied to the code by the correspondence of every run;
    [expressible] (Spec/Expressible.v) is written without the printer's validator counter. *)
-From Verif Require Import Base.Str Base.Outcome Model.Ast Model.Token Model.Parser Model.Listener Model.Printer
+From Verif Require Import Spec.DocDomain Base.Str Base.Outcome Model.Ast Model.Token Model.Parser Model.Listener Model.Printer
   Spec.Sem Spec.Expressible Spec.Normalize Proofs.PrinterExpressible Proofs.Lossless Proofs.ParserComplete Proofs.LosslessTokens
-  Proofs.LexInversion Proofs.LexRender Proofs.ParserNatural Proofs.RoundTripChars Proofs.DeclRoundTrip Proofs.DocLex Proofs.DocPrint Proofs.DocRoundTrip Model.Transform.
+  Proofs.LexInversion Proofs.LexRender Proofs.ParserNatural Proofs.RoundTripChars Proofs.DeclRoundTrip Proofs.DocLex Proofs.DocPrint Proofs.DocRoundTrip Proofs.DocDomainOk Model.Transform.
 
 (* 1. on every rewrite a DSL document can carry, the printer's walk succeeds and its counter equals the
       number of direct assignments in the tree — for all trees, of any depth and operator nesting *)
@@ -152,3 +152,12 @@ Proof. exact canon_td_is_the_same_map. Qed.
 (* 16. non-vacuity of 14: a model with three types, a userset restriction and a union whose direct assignment is hoisted *)
 Theorem C02_document_example : model_ok ex_model.
 Proof. exact ex_model_ok. Qed.
+
+(* 17. the same with a DECIDABLE domain and a COMPUTABLE right-hand side (Spec/DocDomain.v): the extracted model evaluates
+       [model_okb m] and [canonical m] on every generated model (wire op 208) and the check compares [canonical m] with the
+       model the IMPLEMENTATION reads back from its own output wherever the theorem applies *)
+Theorem C02_document_round_trip_decidable : forall m, model_okb m = true ->
+  exists t exts md, fst (print_model false m) = Ok t /\ dsl_to_model t = DOk (canonical m) exts md.
+Proof. exact document_round_trip_decidable. Qed.
+Theorem C02_decidable_domain_is_sound : forall m, model_okb m = true -> model_ok m.
+Proof. exact model_okb_ok. Qed.
